@@ -1,7 +1,7 @@
 """Property -> rules table."""
 from __future__ import annotations
 
-from . import bounds, evaluation, game, gameplay, gym, save, solvers
+from . import bounds, evaluation, game, gameplay, generators, gym, normalize, regret, save, shapley, solvers
 
 _NOTE = ("Static analysis of /repo's current source (Python ast, own name resolution, provenance terms, "
          "path-sensitive walks). Decides the structural necessary conditions listed; does not observe numeric behaviour.")
@@ -22,6 +22,12 @@ PROPERTIES: dict[str, dict] = {
     "C04": {"title": "Approximate SAM bounds", "rules": [bounds.rule_bounds],
             "explanation": _NOTE + " C04: B1/B2/B5 on the SAM computer, B11a phase guard, B11b monotone closure, B11c upper recurrence, B12 registry bindings and repetition range.",
             "rule": _SITE_RULE},
+    "C05": {"title": "Exploitability = summed best-case Shapley gain", "rules": [shapley.rule_c05_exploitability, shapley.rule_c06_shapley],
+            "explanation": _NOTE + " C05: X1 bound selection of the max-gain game (vector/scalar sibling agreement, polarity), X2 player pairing and aggregation, X3 = the Shapley rules S1-S6.",
+            "rule": _SITE_RULE},
+    "C06": {"title": "Shapley value", "rules": [shapley.rule_c06_shapley],
+            "explanation": _NOTE + " C06: S1 weights s!(n-s-1)! over range(n) as integer linear forms, S2 entry-point agreement, S3 coefficient index, S4 with/without pairing, S5 summand direction and n! divisor, S6 domain.",
+            "rule": _SITE_RULE},
     "C07": {"title": "More information never hurts", "rules": [bounds.rule_bounds],
             "explanation": _NOTE + " C07: B13 knowledge polarity of every candidate set in all registered computers.",
             "rule": _SITE_RULE},
@@ -31,6 +37,9 @@ PROPERTIES: dict[str, dict] = {
     "C09": {"title": "The reveal-one-coalition environment", "rules": [gym.rule_c09_typestate, gym.rule_c09_step, gym.rule_c09_spaces, gym.rule_c09_reset, gym.rule_c09_done, gym.rule_h3_undo],
             "explanation": _NOTE + " C09: T1 recompute-before-observe typestate, Y1 reveal pairing, Y2 index-space agreement, Y3 reset order/aliasing, Y4 explorable set, Y5 reward sign, D1 done predicate, H3 undo pairing.",
             "rule": _SITE_RULE},
+    "C10": {"title": "Every offered generator runs and yields a game of its class", "rules": [generators.rule_nsig, generators.rule_nint, generators.rule_nrng],
+            "explanation": _NOTE + " C10: N-sig registry exhaustiveness against the call convention, N-int NumPy-integer flow into int-dispatching operands (sinks derived from isinstance tests), N-rng RNG-source discipline of every reachable generator function.",
+            "rule": _SITE_RULE},
     "C11": {"title": "Exhaustive search", "rules": [evaluation.rule_p1_pool_api, gameplay.rule_c11_worker, gameplay.rule_p4_paired, gameplay.rule_c11_best_states, gameplay.rule_l1_lazy_reuse],
             "explanation": _NOTE + " C11: P1 order-preserving pool API, P2 worker purity + T1 recompute-before-gap, P3 enumeration shape, P4 paired get_values/set_known_values arguments, P5 best-states selection, P9 meta-game, L1 single-use iterator reuse (path-sensitive, package-wide).",
             "rule": _SITE_RULE},
@@ -39,6 +48,12 @@ PROPERTIES: dict[str, dict] = {
             "rule": _SITE_RULE},
     "C13": {"title": "Built-in solvers", "rules": [solvers.rule_c13_pairing_readonly, solvers.rule_c13_validity, solvers.rule_c13_choice, solvers.rule_c13_expected_greedy, solvers.rule_c13_registry],
             "explanation": _NOTE + " C13: V1 step/unstep pairing on all paths, V2 read-only use of the env, V3 returned action drawn from the mask-filtered list, V4 choice rules (extremum polarity, first match), V5 expected greedy (argmin over games axis, append+remove, curve row), REG-S registry.",
+            "rule": _SITE_RULE},
+    "C14": {"title": "Regret minimiser", "rules": [regret.rule_r1_index_spaces, regret.rule_r2_save_load, regret.rule_r345],
+            "explanation": _NOTE + " C14: R1 index-space typing (allocation space must contain every index space used on the array; spaces COAL/PID/MID/RANK/RM derived from size expressions and provenance), R2 save/load agreement, R3 plus-clipping order, R4 fallback support, R5 ordering of coalition sets.",
+            "rule": _SITE_RULE},
+    "C15": {"title": "Normalisation", "rules": [normalize.rule_m1, normalize.rule_m2345],
+            "explanation": _NOTE + " C15: M1 cancellation-guarded division (exact-zero vs tolerance guard on a cancellation-derived divisor), M2 norm-info before mutation, M3 inverse agreement and tuple order, M4 view contract of the getters, M5 dispatch exhaustiveness.",
             "rule": _SITE_RULE},
     "C16": {"title": "The size-aggregated environment", "rules": [gym.rule_c16],
             "explanation": _NOTE + " C16: Z1 aggregation of every observation/mask, Z2 candidate set = size AND mask, Z3 pass-through, Z4 sizes aligned with the inner explorable list.",
